@@ -29,6 +29,8 @@ def _const(c):
         return v
     if isinstance(v, str):
         return ("str", v)
+    if c.get("static"):
+        return ("ref", ("static", c["static"]))
     if c.get("promoted") is not None:
         return ("promoted", c["promoted"])
     if c.get("zst"):
@@ -249,6 +251,25 @@ class Folder:
             return len(a[0][1])
         if base in ("[T]::is_empty",) and isinstance(a[0], tuple) and a[0][0] == "bytes":
             return int(len(a[0][1]) == 0)
+        if base.startswith(("u8::is_ascii", "char::is_ascii")) and isinstance(a[0], int):
+            nm = base.split("::", 1)[1]
+            c = a[0]
+            ch = chr(c) if c < 128 else None
+            table = {
+                "is_ascii": c < 128,
+                "is_ascii_control": c < 32 or c == 127,
+                "is_ascii_whitespace": ch is not None and ch in " \t\n\x0c\r",
+                "is_ascii_graphic": 33 <= c <= 126,
+                "is_ascii_punctuation": ch is not None and 33 <= c <= 126 and not ch.isalnum(),
+                "is_ascii_uppercase": ch is not None and "A" <= ch <= "Z",
+                "is_ascii_lowercase": ch is not None and "a" <= ch <= "z",
+                "is_ascii_alphabetic": ch is not None and ch.isalpha(),
+                "is_ascii_alphanumeric": ch is not None and ch.isalnum(),
+                "is_ascii_digit": ch is not None and ch.isdigit(),
+                "is_ascii_hexdigit": ch is not None and ch in "0123456789abcdefABCDEF",
+            }
+            if nm in table:
+                return int(table[nm])
         if base == "char::is_ascii_digit":
             return int(0x30 <= a[0] <= 0x39)
         if base == "char::is_ascii_hexdigit":
